@@ -225,6 +225,9 @@ class Engine:
             # module-level container: treated as a constant only if the contract says so
             if name in getattr(self.ctr, 'const_globals', ()) or True:
                 return VPy(o)
+        import re as _re
+        if o is _re.match:
+            return VPy(o)               # modelled in call_value (match model of the literal pattern)
         if inspect.isfunction(o):
             q = '%s.%s' % (o.__module__, o.__qualname__)
             if not q.startswith('parso.') and 'ext:' + q in REG:
@@ -462,14 +465,15 @@ class Engine:
             # the 're:*:shape' obligations report) the groups are contiguous slices of the match
             from pv import rx
             try:
-                groups, _ = rx.top_groups(pat.obj)
+                layout = rx.top_layout(pat.obj)
             except rx.Unsupported:
-                groups = []
+                layout = []
             off = pos
             lens = []
-            for gi, _r, *_ in groups:
-                ln = z3.Int(fresh_name('glen%d' % gi))
-                ref.groups[gi] = (off, ln)
+            for gi in layout:
+                ln = z3.Int(fresh_name('glen%s' % (gi if gi is not None else 'x')))
+                if gi is not None:
+                    ref.groups[gi] = (off, ln)
                 lens.append(ln)
                 off = off + ln
             if lens:
